@@ -335,5 +335,74 @@ def r7_one_line_literals(chk):
     r3_text_handlers(chk, rule='C04.R7')
 
 
+def r8_star_tuples(chk):
+    tm = tmodel(chk)
+    from jinja2 import nodes as jn
+    chk.doc('C04.R8', 'wherever the template renders loop items inside a star-unpacked tuple `*( item, item )`, the '
+                      'single-item case is rendered separately (loop.first and loop.last) without the star, or every '
+                      'item carries its own trailing comma: `*( ("a", 1) )` unpacks the pair instead of passing it')
+    n = 0
+    src_lines = tm.src.split('\n')
+    fors = list(tm.ast.find_all(jn.For))
+    for f in fors:
+        datas = [d.data for o in f.find_all(jn.Output) for d in o.nodes if isinstance(d, jn.TemplateData)]
+        body_text = ''.join(datas)
+        before = '\n'.join(src_lines[max(0, f.lineno - 3):f.lineno - 1])
+        if '*(' not in body_text and '*(' not in before:
+            continue
+        n += 1
+        tests = [t for i in f.find_all(jn.If) for t in [i.test]]
+        single = any(isinstance(t, jn.And) and sorted(x.attr for x in (t.left, t.right) if isinstance(x, jn.Getattr))
+                     == ['first', 'last'] for t in tests)
+        always_comma = False
+        if not single:
+            # every item rendered as `...),` unconditionally
+            outs = [d.data.strip() for o in f.find_all(jn.Output) for d in o.nodes if isinstance(d, jn.TemplateData)
+                    and d.data.strip()]
+            always_comma = bool(outs) and outs[-1].endswith('),') and not list(f.find_all(jn.CondExpr))
+        chk.ob('C04.R8', 'star-tuple-loop@%s' % norm_iter(f), single or always_comma, '%s:%s' % (tm.rel, f.lineno),
+               'items are rendered inside `*( ... )` without a separate single-item form: with exactly one item the '
+               'generated call unpacks that item')
+    chk.floor('C04.R8', 4, 'star-unpacked item loops')
+
+
+def norm_iter(f):
+    from jinja2 import nodes as jn
+    parts = []
+    cur = f.iter
+    while cur is not None:
+        if isinstance(cur, jn.Filter):
+            parts.append('|' + cur.name)
+            cur = cur.node
+        elif isinstance(cur, jn.Call):
+            cur = cur.node
+        elif isinstance(cur, jn.Getattr):
+            parts.append('.' + cur.attr)
+            cur = cur.node
+        elif isinstance(cur, jn.Getitem):
+            parts.append('[%s]' % (cur.arg.value if isinstance(cur.arg, jn.Const) else '*'))
+            cur = cur.node
+        elif isinstance(cur, jn.Name):
+            parts.append(cur.name)
+            cur = None
+        else:
+            cur = None
+    return ''.join(reversed(parts))
+
+
+def r9_definition_order(chk):
+    """generated definitions must come parents-first: the IR lists symbols in symbol-table order (C03.R5) and the
+    pysnmp adapter only re-sorts by OID (R1)"""
+    from vt.runner import Check
+    from rules.C03 import r5_emission
+    chk.doc('C04.R9', 'the IR document lists records in the symbol table\'s registration order (parents before the '
+                      'symbols that refer to them), which the template relies on for classes derived from local types')
+    tmp = Check(chk.prop, chk.tier, chk.model, chk.repo)
+    r5_emission(tmp)
+    for o in tmp.obligations:
+        if o.key.startswith('genCode/') or 'order' in o.key:
+            chk.ob('C04.R9', o.key, o.ok, o.where, o.detail)
+
+
 RULES = [r1_shared_ir, r2_class_exhaustiveness, r3_field_agreement, r4_default_formats, r5_import_export_spelling,
-         r6_sibling_tails, r7_one_line_literals]
+         r6_sibling_tails, r7_one_line_literals, r8_star_tuples, r9_definition_order]
